@@ -10,12 +10,23 @@ use super::*;
 //@include prelude/atomic.rs
 //@include prelude/dbview.rs
 //@include prelude/arc.rs
+//@include prelude/path_ext.rs
+//@include build/astspec.rs
+#[verifier::external_type_specification] #[verifier::reject_recursive_types(R)] pub struct ExMod<R>(rustpython_parser::ast::Mod<R>);
+#[verifier::external_type_specification] #[verifier::reject_recursive_types(R)] pub struct ExModModule<R>(rustpython_parser::ast::ModModule<R>);
+#[verifier::external_type_specification] #[verifier::reject_recursive_types(R)] pub struct ExModInteractive<R>(rustpython_parser::ast::ModInteractive<R>);
+#[verifier::external_type_specification] #[verifier::reject_recursive_types(R)] pub struct ExModExpression<R>(rustpython_parser::ast::ModExpression<R>);
+#[verifier::external_type_specification] #[verifier::reject_recursive_types(R)] pub struct ExModFunctionType<R>(rustpython_parser::ast::ModFunctionType<R>);
+#[verifier::external_type_specification] #[verifier::reject_recursive_types(R)] pub struct ExTypeIgnore<R>(rustpython_parser::ast::TypeIgnore<R>);
+#[verifier::external_type_specification] #[verifier::reject_recursive_types(R)] pub struct ExTypeIgnoreTypeIgnore<R>(rustpython_parser::ast::TypeIgnoreTypeIgnore<R>);
 } // mod pre
 use pre::*;
 
 #[verifier::external_type_specification] pub struct ExFixtureCycle(FixtureCycle);
+broadcast use {axiom_path_as_path};
+pub const MAX_FILE_CACHE_SIZE: usize = 2000;
 
-//@dbstruct_arc definitions file_cache available_fixtures_cache cycle_cache definitions_version canonical_path_cache
+//@dbstruct_arc definitions file_cache available_fixtures_cache cycle_cache definitions_version canonical_path_cache line_index_cache imported_fixtures_cache ast_cache
 
 /// everything the memoised computations may read: definitions and cached texts (the file system is a constant)
 pub struct QView { pub defs: Map<Seq<char>, Seq<DefV>>, pub texts: Map<PV, Seq<char>> }
@@ -25,6 +36,13 @@ pub uninterp spec fn op_avail(q: QView, file: PV) -> Seq<DefV>;
 pub uninterp spec fn op_cycles(q: QView) -> Seq<FixtureCycle>;
 /// canonicalisation of a path (file-system fact, idempotent; get_canonical_path memoises it)
 pub uninterp spec fn canon(p: PV) -> PV;
+/// content of a file on disk (None if unreadable): file-system fact
+pub uninterp spec fn fs_read(p: PV) -> Option<Seq<char>>;
+
+#[verifier::external_type_specification] #[verifier::external_body] pub struct ExIoError(std::io::Error);
+#[verifier::allow(undeclared_external_trait)]
+pub assume_specification<P: AsRef<Path>>[ std::fs::read_to_string::<P> ](p: P) -> (r: Result<String, std::io::Error>)
+    ensures (match r { Ok(s) => Some(s@), Err(_) => None::<Seq<char>> }) == fs_read(as_path_view(p));
 
 pub mod resolver {
 use super::*;
@@ -90,6 +108,48 @@ impl FixtureDatabase {
         final(self).cycle_cache_ok(),
         final(self).q() == old(self).q(), final(self).version() == old(self).version(),
         final(self).available_fixtures_cache == old(self).available_fixtures_cache,
+@*/
+
+/*@ extract src/fixtures/mod.rs get_file_content
+@tags C07 C06
+@ret r
+@wrapexpr_opt 1 `std::fs::read_to_string(file_path).ok().map(Arc::new)` => `Self::vp_read_file(file_path)` with fn vp_read_file(file_path: &Path) -> (r: Option<Arc<String>>) ensures (match r { Some(a) => Some((*a)@), None => None::<Seq<char>> }) == fs_read(pv(file_path))
+@sig
+    // a pure query (&self receiver): the cached text if there is one, else the file on disk — and NO write to any map
+    ensures (match r { Some(a) => Some((*a)@), None => None::<Seq<char>> }) ==
+        (if self.file_cache.m().contains_key(pv(file_path)) { Some((*self.file_cache.m()[pv(file_path)])@) } else { fs_read(pv(file_path)) }),
+@*/
+
+/*@ extract src/fixtures/mod.rs cleanup_file_cache
+@tags C07
+@recv mut
+@wrapexpr 1 `file_path .canonicalize() .unwrap_or_else(|_| file_path.to_path_buf())` => `Self::vp_canonicalize_or_self(file_path)` with fn vp_canonicalize_or_self(file_path: &Path) -> (r: PathBuf) ensures pbv(&r) == canon(pv(file_path))
+@sig
+    ensures
+        // closing a document drops only cached data of that file: the index (definitions) and the version stay
+        final(self).definitions == old(self).definitions, final(self).version() == old(self).version(),
+        final(self).file_cache.m() == old(self).file_cache.m().remove(canon(pv(file_path))),
+        final(self).available_fixtures_cache.m() == old(self).available_fixtures_cache.m().remove(canon(pv(file_path))),
+        final(self).cycle_cache == old(self).cycle_cache,
+@*/
+
+/*@ extract src/fixtures/mod.rs evict_cache_if_needed
+@tags C07
+@recv mut
+@closure 1 |entry: RefMulti<'_, PathBuf, Arc<String>>| -> (p: PathBuf) ensures pbv(&p) == pbv(entry.k)
+@sig
+    ensures
+        // eviction only ever drops cached data: the index and the version stay, cached texts only shrink
+        final(self).definitions == old(self).definitions, final(self).version() == old(self).version(),
+        final(self).cycle_cache == old(self).cycle_cache,
+        final(self).file_cache.m().submap_of(old(self).file_cache.m()),
+        final(self).available_fixtures_cache.m().submap_of(old(self).available_fixtures_cache.m()),
+@loopvar 1 it
+@loop 1
+    invariant
+        self.definitions == old(self).definitions, self.version() == old(self).version(), self.cycle_cache == old(self).cycle_cache,
+        self.file_cache.m().submap_of(old(self).file_cache.m()),
+        self.available_fixtures_cache.m().submap_of(old(self).available_fixtures_cache.m()),
 @*/
 }
 } // mod resolver
